@@ -188,6 +188,17 @@ BUILT = {
         design="DESIGN.md section 6 C18",
         technique="TLA+ schema-heap state machine model-checked with TLC + TLC-generated histories replayed into real Schema/Rule objects",
     ),
+    "C20": dict(
+        text=("Tree.tla states which conditions are always applicable, which keys they name / require, the structural laws "
+              "of the flat tree, and models the HTML output as a trace of open / close events accepted by a stack machine "
+              "(TLC checks the machine accepts exactly the balanced sequences). For seeded prefix-closed schemas the flat and "
+              "nested trees of every sub-tree root and the HTML (with / without anchor root) are observed; TLC judges each "
+              "tree against the rule terms (every rule once with its condition and doc, parents precede and are prefixes, "
+              "flat = nested, required iff an always-applicable required_keys names the key) and each tag trace with the "
+              "stack machine; a strict tokeniser and substring tests decide that schema text appears only escaped."),
+        design="DESIGN.md section 6 C20",
+        technique="TLA+ tree laws and HTML stack machine checked with TLC + TLC trace validation of recorded trees and tag traces",
+    ),
 }
 
 
